@@ -6,6 +6,7 @@ puts every database name (gss-* patterns instantiated with base64 tails containi
 the middle and last among random neighbours, in server and client role, and compares the text report, the
 JSON report and --lookup with the same expected record.
 """
+import json
 import random
 
 from harness import common, runner, report
@@ -117,6 +118,36 @@ def build_cases(tb, rnd, tier):
                            enc_c2s=['aes256-ctr'] if k == 2 else ['aes128-cbc', 'aes256-ctr'], mac_c2s=mac_c2s)
         cases.append(c)
         meta[c['id']] = ('mac', mac[0], 'asymmetric-directions')
+    # names whose table entries are word for word the same (the DES variants, the CBC variants of one cipher, ...): listed side by side
+    # under a Terrapin context, each is still rated by its own spelling - a mark made on one of them does not show on its twins
+    for cat in ('enc', 'mac', 'kex', 'key'):
+        groups = {}
+        for n, e in db[cat].items():
+            if n.startswith('gss-') or (cat == 'key' and n in tb['hostkey_types'] and n not in rating.DEFAULT_HK):
+                continue
+            groups.setdefault(json.dumps([e['versions_raw'], e['fail'], e['warn'], e['info']], sort_keys=True), []).append(n)
+        for g in groups.values():
+            if len(g) < 2:
+                continue
+            g = sorted(g)[:8]
+            for role in ('server', 'client'):
+                cid[0] += 1
+                d = dict(base)
+                d[cat] = g
+                if cat != 'mac':
+                    d['mac'] = ['hmac-sha2-256-etm@openssh.com', 'hmac-sha2-256']
+                if cat != 'enc':
+                    d['enc'] = ['aes128-cbc', 'aes256-ctr']
+                c = rating.mk_case(cid[0], role=role, **d)
+                cases.append(c)
+                meta[c['id']] = (cat, g[0], 'twins')
+    # the first key exchange the tool can drive is a group exchange: host keys are fetched over it and measured all the same
+    for bits in (1024, 2048, 3072):
+        cid[0] += 1
+        c = rating.mk_case(cid[0], kex=['diffie-hellman-group-exchange-sha256', 'curve25519-sha256'], key=['rsa-sha2-512', 'ssh-rsa', 'ssh-ed25519'], enc=['aes128-ctr'],
+                           mac=['hmac-sha2-256'], hk={'rsa-sha2-512': (bits, '', 0), 'ssh-rsa': (bits, '', 0)}, dh={'diffie-hellman-group-exchange-sha256': (4096, False)})
+        cases.append(c)
+        meta[c['id']] = ('key', 'rsa-sha2-512', 'sized-over-gex')
     # measured context: the same name with different measured sizes, text vs JSON must agree with the rule
     ossh = {'product': 'OpenSSH', 'c': [8, 9], 'p': ['p', 1]}
     for bits in (1024, 2048, 3072, 4096):
